@@ -359,6 +359,47 @@ func ruleCryptoConstants(c *core.Ctx, rule string) {
 			got[int(i)] = byteExpr(ck, be.Y)
 			return true
 		})
+		// the same comparison against a table: for i, b := range want { diff |= buf[i] ^ b }
+		viaTable := false
+		if len(got) == 0 {
+			ast.Inspect(ck.Decl.Body, func(n ast.Node) bool {
+				rs, ok := n.(*ast.RangeStmt)
+				if !ok || rs.Key == nil || rs.Value == nil || len(rs.Body.List) != 1 {
+					return true
+				}
+				tbl, ok := ast.Unparen(rs.X).(*ast.Ident)
+				as, ok2 := rs.Body.List[0].(*ast.AssignStmt)
+				if !ok || !ok2 || as.Tok != token.OR_ASSIGN {
+					return true
+				}
+				be, ok := ast.Unparen(as.Rhs[0]).(*ast.BinaryExpr)
+				if !ok || be.Op != token.XOR {
+					return true
+				}
+				for _, pr := range [][2]ast.Expr{{be.X, be.Y}, {be.Y, be.X}} {
+					ix, ok := ast.Unparen(pr[0]).(*ast.IndexExpr)
+					if ok && core.ObjOf(ck.Info(), ix.Index) == core.ObjOf(ck.Info(), rs.Key) && core.ObjOf(ck.Info(), pr[1]) == core.ObjOf(ck.Info(), rs.Value) {
+						for i, e := range bufferLayout(ck, tbl.Name) {
+							got[i] = e
+						}
+						viaTable = true
+					}
+				}
+				return true
+			})
+		}
+		if !o.Shape(len(got) > 0, "the comparison of the decrypted /Perms block in checkPerms was not recognised") {
+			return
+		}
+		if viaTable {
+			for i, w := range want {
+				if got[i] != w {
+					o.Fail("checkPerms: byte %d compared with %q, want %q", i, got[i], w)
+				}
+			}
+			o.Require(len(got) == 12, "checkPerms verifies %d bytes, want 12", len(got))
+			return
+		}
 		for i, w := range want {
 			if i == 8 {
 				if got[8] != "emdCode" {
@@ -589,6 +630,33 @@ func bufferLayout(fn *core.Func, name string) map[int]string {
 					continue
 				}
 				key := core.CalleeKey(info, call)
+				if key == "builtin.copy" && len(call.Args) == 2 {
+					// copy(buf[a:], "const")
+					dst := ast.Unparen(call.Args[0])
+					off := 0
+					if se, ok := dst.(*ast.SliceExpr); ok {
+						dst = se.X
+						if se.Low != nil {
+							k, ok := core.IntConst(info, se.Low)
+							if !ok {
+								continue
+							}
+							off = int(k)
+						}
+					}
+					src := ast.Unparen(call.Args[1])
+					if conv, ok := src.(*ast.CallExpr); ok && len(conv.Args) == 1 {
+						if tv, ok := info.Types[conv.Fun]; ok && tv.IsType() {
+							src = conv.Args[0]
+						}
+					}
+					if str, ok := core.StringConst(info, src); ok && isBuf(dst) {
+						for j := 0; j < len(str); j++ {
+							set(off+j, itoa(int(str[j])), alt)
+						}
+					}
+					continue
+				}
 				width, little := 0, true
 				switch {
 				case strings.HasSuffix(key, "ndian.PutUint16"):
@@ -630,6 +698,36 @@ func bufferLayout(fn *core.Func, name string) map[int]string {
 						sh = 8 * (width - 1 - b)
 					}
 					set(off+b, v+">>"+itoa(sh), alt)
+				}
+			case *ast.ForStmt:
+				// for i := a; i < b; i++ { buf[i] = e } with constant bounds
+				init, ok1 := x.Init.(*ast.AssignStmt)
+				cond, ok2 := x.Cond.(*ast.BinaryExpr)
+				post, ok3 := x.Post.(*ast.IncDecStmt)
+				if !ok1 || !ok2 || !ok3 || post.Tok != token.INC || len(init.Lhs) != 1 || len(init.Rhs) != 1 {
+					continue
+				}
+				iv := core.ObjOf(info, init.Lhs[0])
+				lo, okLo := core.IntConst(info, init.Rhs[0])
+				hi, okHi := core.IntConst(info, cond.Y)
+				if iv == nil || !okLo || !okHi || core.ObjOf(info, cond.X) != iv || core.ObjOf(info, post.X) != iv {
+					continue
+				}
+				if cond.Op == token.LEQ {
+					hi++
+				} else if cond.Op != token.LSS {
+					continue
+				}
+				for _, bs := range x.Body.List {
+					as, ok := bs.(*ast.AssignStmt)
+					if !ok || len(as.Lhs) != 1 || len(as.Rhs) != 1 || as.Tok != token.ASSIGN {
+						continue
+					}
+					if ix, ok := ast.Unparen(as.Lhs[0]).(*ast.IndexExpr); ok && isBuf(ix.X) && core.ObjOf(info, ix.Index) == iv {
+						for k := lo; k < hi && k < 4096; k++ {
+							set(int(k), byteExpr(fn, as.Rhs[0]), alt)
+						}
+					}
 				}
 			case *ast.IfStmt:
 				walk(x.Body.List, true)
